@@ -249,7 +249,8 @@ def shape_case(shape, fault):
     elif shape == "genexpr":
         src, inl = f"def f0(x):\n    return list({e} for _ in range(1))\n", ["<genexpr>"]
     elif shape == "fstring":
-        src = f"def f0(x):\n    return f'a{{{e}}}b'\n" if "'" not in e else f'def f0(x):\n    return f"a{{{e}}}b"\n'
+        # (blanks around the expression: `{{` would be an escaped brace)
+        src = f"def f0(x):\n    return f'a{{ {e} }}b'\n" if "'" not in e else f'def f0(x):\n    return f"a{{ {e} }}b"\n'
     elif shape == "lambda":
         src = f"def f0(x):\n    g = lambda: {e}\n    return g()\n"
     elif shape == "nested-other-file":
@@ -1095,14 +1096,18 @@ def _in_child(fn, arg, timeout):
     return pickle.loads(buf)
 
 
-def _run_one(p):
+HA_WALL = 240.0          # a whole Home Assistant case takes 3-20 s; the kill is only a safety net
+
+
+def _run_one(p, scale=1):
     try:
         if p["kind"] == "tb":
             return run_tb(p)
-        # an integration that does not come up (or never settles) because a script failed is an OUTCOME of the case
-        res = _in_child(run_entry, p, 180.0)
+        res = _in_child(run_entry, p, HA_WALL * scale)
         if res.get("timeout"):
-            res = {"setup_failed": "Home Assistant with pyscript did not come up / did not settle (killed after 180 s)"}
+            # a wall-clock kill says nothing by itself (the machine may just be busy): run_impl runs the case again,
+            # alone, with a larger limit; a case that only ever times out is inconclusive, not a verdict
+            return {"guard": "wall", "expected": None, "res": None}
         elif "child_exc" in res:
             if "pyscript setup failed" in res["child_exc"]:
                 res = {"setup_failed": "pyscript setup failed"}
@@ -1113,12 +1118,29 @@ def _run_one(p):
         return {"crash": f"{type(e).__name__}: {e}", "tb": traceback.format_exc()[-2000:]}
 
 
+GUARD_STATS = {"killed_in_first_run": 0, "resolved_by_rerun_alone": 0, "inconclusive": 0}
+
+
 def run_impl(cases):
     res = common.pmap(_run_one, [c.payload for c in cases], chunk=4)
+    for k, (c, r) in enumerate(zip(cases, res)):
+        if r.get("guard"):
+            GUARD_STATS["killed_in_first_run"] += 1
+            r2 = _run_one(c.payload, scale=4)          # alone (the pool is gone), 16 minutes
+            if r2.get("guard"):
+                GUARD_STATS["inconclusive"] += 1
+                r2["inconclusive"] = "the Home Assistant instance did not finish twice (second time alone, 4x the limit)"
+            else:
+                GUARD_STATS["resolved_by_rerun_alone"] += 1
+            res[k] = r2
     for c, r in zip(cases, res):
         if "crash" in r:
             raise RuntimeError(f"harness crash: {r['crash']}\n{r['tb']}")
         c.payload["_run"] = r
+        if r.get("inconclusive"):
+            c.line = None                # no tie, no verdict
+            c.impl = c.model = "inconclusive"
+            continue
         if c.payload["kind"] == "tb":
             c.impl = r["impl"]
             c.line = r["lines"]
@@ -1175,6 +1197,8 @@ common._execute = _execute
 def verdict(c):
     p = c.payload
     r = p.get("_run", {})
+    if r.get("inconclusive"):
+        return None
     if p["kind"] == "tb":
         if r["impl"] == "no-exception" or r.get("oracle") == "no-exception":
             return None if r["impl"] == r.get("oracle") else f"exception raised on one side only: pyscript {r['impl'][:40]} CPython {r.get('oracle', '')[:40]}"
@@ -1445,7 +1469,9 @@ def extra_coverage(cases):
                 if t.startswith(pre):
                     d[t[len(pre):]] = d.get(t[len(pre):], 0) + 1
     acc = sum(1 for c in cases if c.payload["kind"] == "tb" for a in c.payload.get("_accept", []) if a == "1")
-    return {"fault_kinds": faults, "link_kinds": links, "tb_entry": entries, "chain_depth": depth,
+    return {"guards": dict(GUARD_STATS, note="a Home Assistant case killed by the wall-clock net is run again alone; "
+                                               "if it is killed again it is inconclusive (no verdict, no tie)"),
+            "fault_kinds": faults, "link_kinds": links, "tb_entry": entries, "chain_depth": depth,
             "frame_sequences_accepted_by_grammar": acc,
             "entry_kinds_per_ha_case": ENTRY_KINDS + ["load", "load-import", "load-syntax-main", "load-syntax-module", "load-syntax-trigger-expression", "load-class-body"] + ["startup:" + k[0] for k in STARTUP_KINDS],
             "spec_column_equals_cpython": sum(1 for c in cases if c.payload["kind"] == "tb" and c.spec is not None
